@@ -21,6 +21,8 @@ WHAT = {
     "C14:pending-call-does-not-fail-after-session-closed": "a pending call returned without an error although the session died",
     "C14:later-call-succeeds-on-closed-session": "a call made after the session was closed did not fail",
     "C14:close-callback-count-not-one": "a callback-mode stream did not get exactly one close callback when its session died",
+    "C14:close-does-not-release-pending-calls": "Session.Close returned but parked calls were not released / closeNotifyCh of a stream or shutdownCh not closed before the dispatcher's cleanup ran",
+    "C14:cleanup-leaves-queue-mapped": "after both ends are closed and the cleanup ran, the session's queue is still mapped (or its file / memfd still exists)",
     "C14:session-not-closed-after-peer-close": "a session whose peer was closed did not close",
 }
 
